@@ -151,7 +151,8 @@ def hmf_case(draw):
     N = draw(st.integers(max(6, 3 * K), 20))
     M = draw(st.integers(20, 60))
     return dict(N=N, M=M, K=K, seed=draw(st.integers(0, 10 ** 6)), zf=draw(st.sampled_from([0.1, 0.0, 0.25])),
-                epsilon=draw(st.sampled_from([None, 0.0, 0.3, 0.05])), positive=draw(st.booleans()), sparse_if_eps=draw(st.sampled_from([0, 0, 1, 2])))
+                epsilon=draw(st.sampled_from([None, 0.0, 0.3, 0.05])), positive=draw(st.booleans()), sparse_if_eps=draw(st.sampled_from([0, 0, 1, 2])),
+                scale=draw(st.sampled_from([1.0, 1.0, 1e7, 1e-3, 1e4])))
 
 
 def hmf_data(case):
@@ -182,7 +183,9 @@ def hmf_data(case):
     for q in range(case.get('dead', 0)):
         mask[:, (seed + 7 * q + 1) % M] = True
     iv[mask] = 0.0
-    return sp, iv
+    # flux units: the same spectra in units S times smaller (values S times larger, inverse variances S^2 times smaller)
+    S = case.get('scale', 1.0)
+    return sp * S, iv / S ** 2
 
 
 def hmf_steps_body(case):
@@ -205,10 +208,11 @@ def hmf_steps_body(case):
         ref = np.array([np.linalg.lstsq(g0.T * np.sqrt(iv[i])[:, None], sp[i] * np.sqrt(iv[i]), rcond=None)[0] for i in range(N)])
         conds = max(np.linalg.cond(g0.T * np.sqrt(iv[i])[:, None]) for i in range(N))
         if conds < 1e4:
-            check(bool(np.all(np.abs(a - ref) <= 1e-8 * conds ** 2 * max(1.0, np.abs(ref).max()))), 'astep:not-the-weighted-least-squares-optimum',
+            S = case.get('scale', 1.0)
+            check(bool(np.all(np.abs(a - ref) <= 1e-8 * conds ** 2 * max(S, np.abs(ref).max()))), 'astep:not-the-weighted-least-squares-optimum',
                   lambda: dict(maxdev=float(np.abs(a - ref).max()), cond=float(conds)))
             grad = np.array([g0.dot(iv[i] * (sp[i] - a[i].dot(g0))) for i in range(N)])
-            gs = max(1.0, np.abs(np.array([g0.dot(iv[i] * sp[i]) for i in range(N)])).max())
+            gs = max(1.0 / S, np.abs(np.array([g0.dot(iv[i] * sp[i]) for i in range(N)])).max())
             check(bool(np.all(np.abs(grad) <= 1e-8 * conds * gs)), 'astep:gradient-not-zero', lambda: dict(max=float(np.abs(grad).max())))
     h.a = a
     b1 = float(call(h.badness))
@@ -242,8 +246,9 @@ def hmf_steps_body(case):
 @st.composite
 def hmf_solve_case(draw):
     base = draw(hmf_case())
-    base['positive'] = True
     nn = draw(st.sampled_from([False, True]))
+    base['positive'] = nn or draw(st.booleans())          # the default mode also gets spectra with negative pixels (sky-subtracted noise)
+    base['scale'] = 1.0
     if nn and draw(st.booleans()):
         base['epsilon'] = draw(st.sampled_from([10.0, 100.0, 1e4]))        # a strong smoothness penalty (non-negative mode only)
     return dict(base, nonnegative=nn, hseed=draw(st.sampled_from([0, 7, 12345, 1, 0])), n_iter=draw(st.sampled_from([3, 5])),
